@@ -24,7 +24,7 @@ import (
 
 type vc27JSONSerializer struct{}
 
-func (vc27JSONSerializer) Marshal(m Message) ([]byte, error)    { return json.Marshal(m) }
+func (vc27JSONSerializer) Marshal(m Message) ([]byte, error)   { return json.Marshal(m) }
 func (vc27JSONSerializer) Unmarshal(b []byte, m Message) error { return json.Unmarshal(b, m) }
 
 // one value of every message type that is broadcast between nodes
